@@ -315,7 +315,8 @@ pub fn write_conference_create_request(user_data: &[u8]) ->RdpResult<Vec<u8>> {
     let mut result = Cursor::new(vec![]);
     per::write_choice(0, &mut result)?;
     per::write_object_identifier(&T124_02_98_OID, &mut result)?;
-    per::write_length(user_data.len() as u16 + 14)?.write(&mut result)?;
+    // 12 bytes of fixed fields, then the user data preceded by its own length on one or two bytes
+    per::write_length(user_data.len() as u16 + 12 + per::write_length(user_data.len() as u16)?.length() as u16)?.write(&mut result)?;
     per::write_choice(0, &mut result)?;
     per::write_selection(0x08, &mut result)?;
     per::write_numeric_string(b"1", 1, &mut result)?;
